@@ -233,11 +233,21 @@ func ruleCarrierWrappers(c *Ctx, rule string) {
 			if !w.isRoleCall(call, "newTunnelChannel") && !w.isRoleCall(call, "serveTunnel") {
 				return
 			}
-			if w.isWrapperAlloc(origin(call.Call.Args[0])) {
+			// the carrier argument: the (flattened: parameters may be bundled) argument of a carrier stream type
+			var carrierArg ssa.Value
+			for _, fa := range flatArgs(call) {
+				if w.isCarrierType(fa.Type()) {
+					carrierArg = fa
+				}
+			}
+			if carrierArg == nil {
+				carrierArg = call.Call.Args[0]
+			}
+			if w.isWrapperAlloc(origin(carrierArg)) {
 				ok = true
 			}
 			// the variable may be captured by a closure (cell with two stores): the latest store dominating the call
-			if u, isU := stripConv(call.Call.Args[0]).(*ssa.UnOp); isU {
+			if u, isU := stripConv(carrierArg).(*ssa.UnOp); isU {
 				if cell, isCell := u.X.(*ssa.Alloc); isCell {
 					var best *ssa.Store
 					for _, r := range *cell.Referrers() {
@@ -541,6 +551,36 @@ func (c *Ctx) streamingFlagOrigin(fr FieldRef) string {
 				}
 			}
 		})
+		if res != "" && !strings.HasPrefix(res, "mismatched:") {
+			return res
+		}
+		// the flag is one of the allocation function's inputs (possibly a field of a bundle of call parameters): what the
+		// exported NewStream supplies for it, through the functions in between
+		if nsm := w.methodFn(a.Ch, "NewStream"); nsm != nil && fn == a.Allocate {
+			res2 := ""
+			allInstrs(fn, func(in ssa.Instruction) {
+				al, ok := in.(*ssa.Alloc)
+				if !ok || namedOf(al.Type()) == nil || namedOf(al.Type()).Obj().Name() != fr.Type {
+					return
+				}
+				v, ok := storesInto(al)[fr.Field]
+				if !ok {
+					return
+				}
+				if inp := inputOf(fn, v); inp != nil {
+					for _, sv := range w.suppliedBy(fn, *inp, nsm, 0) {
+						if _, ch := fieldChain(sv); len(ch) == 1 {
+							res2 = ch[0]
+						} else {
+							res2 = "mismatched:" + desc(sv)
+						}
+					}
+				}
+			})
+			if res2 != "" {
+				return res2
+			}
+		}
 		if res != "" {
 			return res
 		}
@@ -709,7 +749,11 @@ func ruleLookAhead(c *Ctx, rule string) {
 		}
 		// second message present -> status error, sticky
 		okMulti := false
-		for _, ret := range returnsOf(fn) {
+		multiRets := returnsOf(fn)
+		if c2.Parent() != fn && regionRoot(c2.Parent()) == fn {
+			multiRets = append(multiRets, returnsOf(c2.Parent())...) // the look-ahead was split off into a helper used only here
+		}
+		for _, ret := range multiRets {
 			hasFact := false
 			for _, f := range factsAt(ret) {
 				if x, op, y, ok := cmpFact(f); ok && op == token.EQL && isNilConst(y) && x == err2 {
@@ -720,11 +764,17 @@ func ruleLookAhead(c *Ctx, rule string) {
 				continue
 			}
 			t := returnTuple(ret)
-			e := t[2]
+			if len(t) == 0 || t[len(t)-1] == nil {
+				continue
+			}
+			e := t[len(t)-1]
+			if len(t) < 3 {
+				t = append([]ssa.Value{nil}, t...) // a helper that returns (ok, err): no data at all
+			}
 			if call, ok := stripConv(e).(*ssa.Call); ok && strings.HasPrefix(calleeName(call), "google.golang.org/grpc/status.") {
 				k, _ := constInt(call.Call.Args[0])
 				sticky := false
-				for _, b := range fn.Blocks {
+				for _, b := range ret.Parent().Blocks {
 					for _, in := range b.Instrs {
 						if st, ok := in.(*ssa.Store); ok && st.Val == e && dominates(st, ret) {
 							if fr, _, isF := fieldOfAddr(st.Addr); isF && types.TypeString(fieldTypeOf(w, fr), nil) == "error" {
@@ -743,8 +793,15 @@ func ruleLookAhead(c *Ctx, rule string) {
 		// delivering returns reachable from c2
 		okDeliver, nDel := true, 0
 		var why string
+		var c2pt ssa.Instruction = c2
+		if c2.Parent() != fn {
+			// the look-ahead lives in a helper used only here: the point of the read method at which it happens
+			if l := w.liftTo(c2, fn); l != nil {
+				c2pt = l
+			}
+		}
 		for _, ret := range returnsOf(fn) {
-			if !reaches(c2, ret) {
+			if !reaches(c2pt, ret) {
 				continue
 			}
 			t := returnTuple(ret)
@@ -753,14 +810,14 @@ func ruleLookAhead(c *Ctx, rule string) {
 			}
 			nDel++
 			rb := ret.Block()
-			if c2.Block().Dominates(rb) {
+			if c2pt.Block().Dominates(rb) {
 				if !hasEOFAndOK(factsAt(ret), nil, err2, ok2) {
 					okDeliver, why = false, "the delivering return at "+w.At(ret)+" is not under err2 == io.EOF && ok2"
 				}
 				continue
 			}
 			for _, p := range rb.Preds {
-				if !(c2.Block().Dominates(p) || c2.Block() == p) {
+				if !(c2pt.Block().Dominates(p) || c2pt.Block() == p) {
 					continue
 				}
 				facts := factsAt(p.Instrs[len(p.Instrs)-1])
@@ -778,7 +835,7 @@ func ruleLookAhead(c *Ctx, rule string) {
 		// where it was found non-nil)
 		okFail, whyF := true, ""
 		for _, ret := range returnsOf(fn) {
-			if !c2.Block().Dominates(ret.Block()) && !(c2.Block() == ret.Block()) {
+			if !c2pt.Block().Dominates(ret.Block()) && !(c2pt.Block() == ret.Block()) {
 				continue
 			}
 			t := returnTuple(ret)
@@ -814,6 +871,10 @@ func ruleLookAhead(c *Ctx, rule string) {
 func hasEOFAndOK(facts []EdgeFact, extra *EdgeFact, err2, ok2 ssa.Value) bool {
 	if extra != nil {
 		facts = append(append([]EdgeFact{}, facts...), *extra)
+		// the edge may be the success edge of `if err := lookAheadHelper(); err != nil`: what holds at the helper's nil returns
+		if x, op, y, ok := cmpFact(normFact(*extra)); ok && op == token.EQL && isNilConst(y) {
+			facts = append(facts, impliedByNilError(stripConv(x))...)
+		}
 	}
 	eof, okf := false, false
 	for _, f := range facts {
@@ -939,25 +1000,48 @@ func ruleInvokeShape(c *Ctx, rule string) {
 	})
 	c.check(okCancel, rule, w.Short(inv)+": a second response cancels the stream", w.At(r2), "cancel where the Internal error is made", "when the peer sends a second response to a unary call the stream is not cancelled: Invoke returns but the RPC stays open on both ends (table entries, handler, watcher goroutine) until the peer chooses to end it")
 	c.check(okFirst, rule, w.Short(inv)+": error of the first receive returned", w.At(r1), "if err != nil { return err }", "the error of the first receive (e.g. the RPC's status, or zero responses) is not returned to the caller")
-	// flags
-	allInstrs(inv, func(in ssa.Instruction) {
-		if call, ok := in.(*ssa.Call); ok && staticCallee(call) == a.NewStream {
-			c.check(isConstBool(call.Call.Args[2], false) && isConstBool(call.Call.Args[3], false), rule, w.Short(inv)+": unary call created non-streaming on both sides", w.At(call), "newStream(ctx, false, false, …)", "Invoke creates its stream with a streaming flag set: the one-message enforcement is disabled for unary calls")
-		}
-	})
-	if nsm := w.methodFn(a.Ch, "NewStream"); nsm != nil {
-		allInstrs(nsm, func(in ssa.Instruction) {
-			if call, ok := in.(*ssa.Call); ok && staticCallee(call) == a.NewStream {
-				if len(call.Call.Args) < 4 {
-					c.fail(rule, w.Short(nsm)+": flags from the StreamDesc in order", w.At(call), "the stream-creation function is not called with separate (client-streaming, server-streaming) arguments: unrecognised shape")
+	// flags: what Invoke and the exported NewStream supply for the allocation function's inputs that become the stream's
+	// two streaming flags (followed through the functions in between; parameters may be bundled)
+	if a.Allocate != nil && a.CS != nil {
+		for _, fl := range []struct{ field, want string }{{"isClientStream", "ClientStreams"}, {"isServerStream", "ServerStreams"}} {
+			var inp *ctorInput
+			allInstrs(a.Allocate, func(in ssa.Instruction) {
+				al, ok := in.(*ssa.Alloc)
+				if !ok || namedOf(al.Type()) == nil || namedOf(al.Type()).Obj() != a.CS.Obj() {
 					return
 				}
-				_, c1 := fieldChain(call.Call.Args[2])
-				_, c2 := fieldChain(call.Call.Args[3])
-				ok2 := len(c1) == 1 && c1[0] == "ClientStreams" && len(c2) == 1 && c2[0] == "ServerStreams"
-				c.check(ok2, rule, w.Short(nsm)+": flags from the StreamDesc in order", w.At(call), "newStream(ctx, desc.ClientStreams, desc.ServerStreams, …)", "NewStream passes ("+desc(call.Call.Args[2])+", "+desc(call.Call.Args[3])+") as (client-streaming, server-streaming)")
+				for fname, v := range storesInto(al) {
+					if c.streamFlagRole(fname) == fl.field {
+						inp = inputOf(a.Allocate, v)
+					}
+				}
+			})
+			if inp == nil {
+				c.fail(rule, w.Short(inv)+": "+fl.field+" comes from an input of the allocation function", posOf(w, a.Allocate), "the stream's "+fl.field+" flag is not set from a parameter of the allocation function: unrecognised shape")
+				continue
 			}
-		})
+			uv := w.suppliedBy(a.Allocate, *inp, inv, 0)
+			okU := len(uv) > 0
+			for _, v := range uv {
+				if !isConstBool(origin(v), false) && !isConstBool(v, false) {
+					okU = false
+				}
+			}
+			c.check(okU, rule, w.Short(inv)+": unary call created with "+fl.field+" == false", posOf(w, inv), "false", "Invoke creates its stream with "+fl.field+" set (or not from a constant): the one-message enforcement is disabled for unary calls")
+			if nsm := w.methodFn(a.Ch, "NewStream"); nsm != nil {
+				sv := w.suppliedBy(a.Allocate, *inp, nsm, 0)
+				okS := len(sv) > 0
+				got := ""
+				for _, v := range sv {
+					_, ch := fieldChain(v)
+					if len(ch) != 1 || ch[0] != fl.want {
+						okS = false
+						got = desc(v)
+					}
+				}
+				c.check(okS, rule, w.Short(nsm)+": "+fl.field+" from StreamDesc."+fl.want, posOf(w, nsm), "desc."+fl.want, "NewStream supplies "+got+" for the stream's "+fl.field+" flag, expected desc."+fl.want+" (swapped or constant flags disable or misplace the one-message enforcement)")
+			}
+		}
 	}
 	// server flags
 	for _, f := range []string{"isClientStream", "isServerStream"} {
@@ -1140,7 +1224,14 @@ func ruleChannelIdentity(c *Ctx, r4, r5 string) {
 				return
 			}
 			if fr, _, isF := loadedField(st.Addr); isF && fr.Type == "tunnelChannelCallOption" {
-				if mi, isMI := st.Val.(*ssa.MakeInterface); isMI && origin(mi.X) == ssa.Value(a.Allocate.Params[0]) {
+				v := st.Val
+				if _, isMI := v.(*ssa.MakeInterface); !isMI {
+					v = origin(v) // the store may sit in a small method of the option (opt.report(c)): its parameter
+				}
+				if mi, isMI := v.(*ssa.MakeInterface); isMI && origin(mi.X) == ssa.Value(a.Allocate.Params[0]) {
+					ok = true
+				}
+				if origin(st.Val) == ssa.Value(a.Allocate.Params[0]) {
 					ok = true
 				}
 			}
@@ -1200,7 +1291,17 @@ func ruleChannelIdentity(c *Ctx, r4, r5 string) {
 			if !w.isRoleCall(call, p.ctor) {
 				return
 			}
-			md := origin(call.Call.Args[1])
+			var mdArg ssa.Value
+			for _, fa := range flatArgs(call) { // parameters may be bundled into a struct
+				if typeIs(fa.Type(), "grpc/metadata", "MD") {
+					mdArg = fa
+				}
+			}
+			if mdArg == nil {
+				why = "no metadata argument"
+				return
+			}
+			md := origin(mdArg)
 			ex, isEx := md.(*ssa.Extract)
 			if !isEx {
 				why = "metadata argument is " + desc(md)
@@ -1231,8 +1332,11 @@ func ruleChannelIdentity(c *Ctx, r4, r5 string) {
 		allInstrs(ntc, func(in ssa.Instruction) {
 			if al, isAl := in.(*ssa.Alloc); isAl && a.Ch != nil && namedOf(al.Type()) != nil && namedOf(al.Type()).Obj() == a.Ch.Obj() {
 				st := storesInto(al)
-				if v, has := st[w.Roles().ChTunnelMetadata]; has && stripConv(v) == ssa.Value(ntc.Params[1]) {
-					ok = true
+				if v, has := st[w.Roles().ChTunnelMetadata]; has {
+					// one of the constructor's inputs (a parameter, or a field of a bundle of parameters) of metadata type
+					if inp := inputOf(ntc, v); inp != nil && typeIs(inp.T, "grpc/metadata", "MD") {
+						ok = true
+					}
 				}
 				for _, v := range st {
 					if !strings.HasSuffix(types.TypeString(v.Type(), nil), "context.Context") {
@@ -1793,3 +1897,7 @@ func publishedByOnce(accs []*FieldAccess) (string, bool) {
 	}
 	return "written only inside " + once.String() + ".Do and read only after a Do call on it (sync.Once happens-before)", true
 }
+
+// streamFlagRole: the role a field of the client stream plays among the two streaming flags (today: by its name, as the
+// server-side flag rules do).
+func (c *Ctx) streamFlagRole(field string) string { return field }
